@@ -12,6 +12,9 @@ accepted shape of the source format, both in compact form and as printed by the 
                 length, alphabet or component reasons);
  C08.options    conversions expressed as options of validate() (ISAN with / without check characters): under each option
                 assignment every accepting path returns a string of one of the lengths the relation allows;
+ C08.presentation  conversions requested through an option of format()/compact()/validate() (ISBN-10 printed as
+                ISBN-13): the last character of the result is a cell produced by the target's generator, never
+                the source's own check character;
  C08.input      the conversion reads its raw argument only through compact()/validate() (or passes it to a
                 callee that does) apart from separator sniffing (`' ' in number`)."""
 import ast
@@ -152,6 +155,36 @@ def check(tier):
                   '%s can return a string of %s characters; %s allows only %s'
                   % (label, ' or '.join('%s..%s' % (a, b if b is not None else 'unbounded') if a != b else str(a) for a, b in bad), oc['relation'], oc['length']),
                   what='%s: lengths %s' % (label, sorted({x['lo'] for x in rets})))
+    # ---- conversions requested through an option of format()/compact()/validate()
+    from ..strabs.run import analyse_option_call
+    for pc in spec.get('presentation_conversions', []):
+        mn, fn = pc['module'], pc['function']
+        rr = prog.resolve_name(prog.mods[mn], fn) if mn in prog.mods else None
+        if rr is None:
+            rep.error('conversion %s.%s vanished' % (mn, fn))
+            continue
+        fnode = prog.mods[rr[1]].funcs[rr[2]]
+        params = {a.arg for a in fnode.args.args}
+        if not set(pc['kwargs']) <= params:
+            rep.error('%s.%s no longer has the options %s' % (mn, fn, sorted(set(pc['kwargs']) - params)))
+            continue
+        file = rel(prog.mods[rr[1]].path)
+        label = '%s.%s(%s)' % (mn.replace('stdnum.', ''), fn, ', '.join('%s=%s' % kv for kv in sorted(pc['kwargs'].items())))
+        recs = [x for x in analyse_option_call(mn, fn, pc['kwargs']) if x['source_len'] in pc['source_lengths']]
+        if not recs:
+            rep.undecide('C08.presentation', file, 'no accepted source of length %s reached %s' % (pc['source_lengths'], label))
+            continue
+        bad = []
+        for x in recs:
+            if x['kind'] != 'str' or not x.get('last_known'):
+                bad.append('%s: result %s' % (x['source'], x.get('desc', x['kind'])))
+            elif pc['check_generator'] not in x['last_generators'] or x['last_is_source']:
+                bad.append('%s: the last character of the result %s, not by %s.calc_check_digit' % (
+                    x['source'], 'is the last character of the source' if x['last_is_source'] else 'is produced by %s' % (x['last_generators'] or 'no generator'), pc['check_generator']))
+            elif x['last_chars'] is None or not set(x['last_chars']) <= set(pc['last_chars']):
+                bad.append('%s: the last character may be %r' % (x['source'], x['last_chars']))
+        rep.check(not bad, 'C08.presentation', file, fn, label, fnode.lineno, '%s: %s (%s)' % (label, (bad or [''])[0], pc['relation']),
+                  what='%s: %d source shapes' % (label, len(recs)))
     for mn, why in spec['undecided'].items():
         rep.undecide('C08.shape', mn, why)
     rep.expect_at_least('C08.shape', 15, 'conversions')
